@@ -158,45 +158,81 @@ def impl_roundtrip(a):
         )
     except Exception as e:  # noqa: BLE001
         return B.classify_exc(e)
-    return G.real_parse_bytes(u, a["clazz"], xml.encode(), handler=a["handler"], config=a["config"])
+    out = G.real_parse_bytes(u, a["clazz"], xml.encode(), handler=a["handler"], config=a["config"])
+    if "ok" in out:
+        out["ok"]["bindings"] = _bindings(xml)
+    return out
 
 
-_GEN_PREFIX = __import__("re").compile(r"^(q|ns)(\d+):(.*)$", __import__("re").S)
+def _bindings(xml):
+    """prefix -> the namespaces it is bound to somewhere in the document"""
+    from lxml import etree
+
+    binds = {}
+    try:
+        for el in etree.fromstring(xml.encode()).iter():
+            if isinstance(el.tag, str):
+                for p, uri in el.nsmap.items():
+                    binds.setdefault(p or "", set()).add(uri)
+    except etree.XMLSyntaxError:
+        return {}
+    return {p: sorted(us) for p, us in sorted(binds.items())}
 
 
-def _same_up_to_prefixes(m, i, ren):
-    """structural equality of two values where a string leaf `q<k>:rest` of the model may stand for
-    `ns<j>:rest` of the code, under one injective renaming `ren` of the generated prefixes"""
-    if isinstance(m, str) and isinstance(i, str):
-        if m == i:
-            return True
-        mm, im = _GEN_PREFIX.match(m), _GEN_PREFIX.match(i)
-        if not (mm and im and mm.group(1) == "q" and im.group(1) == "ns" and mm.group(3) == im.group(3)):
-            return False
-        k, j = mm.group(2), im.group(2)
-        if ren.setdefault(k, j) != j or [x for x, y in ren.items() if y == j] != [k]:
-            return False
+_Q, _NS = __import__("re").compile(r"^q(\d+):(.*)$", __import__("re").S), __import__("re").compile(r"^ns(\d+):(.*)$", __import__("re").S)
+
+
+def _same_token(tm, ti, uris, binds):
+    """`q<k>:local` of the model and `ns<j>:local` of the code denote the same name: the namespace the
+    abstract writer binds to `q<k>` is one the document binds to `ns<j>`"""
+    if tm == ti:
         return True
+    mm, im = _Q.match(tm), _NS.match(ti)
+    if not (mm and im and mm.group(2) == im.group(2)):
+        return False
+    k = int(mm.group(1))
+    return k < len(uris) and uris[k] in binds.get("ns" + im.group(1), [])
+
+
+def _same_generic_text(tm, ti, uris, binds):
+    if tm == ti:
+        return True
+    if not (isinstance(tm, str) and isinstance(ti, str)):
+        return False
+    a, b = tm.split(" "), ti.split(" ")
+    return len(a) == len(b) and all(_same_token(x, y, uris, binds) for x, y in zip(a, b))
+
+
+def _same_denoted(m, i, uris, binds):
+    """equality of two parsed values, strict everywhere but in the text of generic elements"""
     if isinstance(m, dict) and isinstance(i, dict):
-        return m.keys() == i.keys() and all(_same_up_to_prefixes(m[k], i[k], ren) for k in m)
+        if m.keys() != i.keys():
+            return False
+        if set(m) == {"any"} and isinstance(m["any"], dict) and isinstance(i["any"], dict):
+            am, ai = m["any"], i["any"]
+            return (am.keys() == ai.keys() and all(am[k] == ai[k] for k in am if k not in ("text", "children"))
+                    and _same_generic_text(am["text"], ai["text"], uris, binds)
+                    and _same_denoted(am["children"], ai["children"], uris, binds))
+        return all(_same_denoted(m[k], i[k], uris, binds) for k in m)
     if isinstance(m, list) and isinstance(i, list):
-        return len(m) == len(i) and all(_same_up_to_prefixes(x, y, ren) for x, y in zip(m, i))
+        return len(m) == len(i) and all(_same_denoted(x, y, uris, binds) for x, y in zip(m, i))
     return m == i
 
 
 def cmp_roundtrip(mo, io, a):
-    """The abstract writer of the model names the prefixes of QName-valued content `q0, q1, …`, the real
-    writers `ns0, ns1, …` (prefix allocation is the writer layer, C03).  QName-typed values are resolved
-    again by the parser, but where such an element is read back as *generic* content (an AnyElement or a
-    str under a wildcard) the raw text keeps the prefix: the two results are then compared up to one
-    injective renaming of the generated prefixes, and exactly otherwise."""
+    """Exact comparison of the parsed objects, with one exception: the text of a *generic* element
+    (AnyElement).  A QName-typed element that the parser reads back as generic content (it is captured by
+    a wildcard) keeps its raw text `prefix:local`; the abstract writer of the model names its prefixes
+    `q0, q1, …` (the driver reports the namespaces they stand for), the real writers `ns0, ns1, …` (prefix
+    allocation is the writer layer, C03).  Such text is compared by the name it denotes: the namespace of
+    the model's prefix must be one the real document binds to the code's prefix."""
     if unsupported(mo):
         return True
-    if mo == io:
-        return True
     if "ok" in mo and "ok" in io:
-        return _same_up_to_prefixes(mo["ok"], io["ok"], {})
-    return False
+        m, i = dict(mo["ok"]), dict(io["ok"])
+        uris, binds = m.pop("prefixes", []), i.pop("bindings", {})
+        return m == i or _same_denoted(m, i, uris, binds)
+    return mo == io
 
 
 def classify_rt(a, o):
